@@ -12,7 +12,7 @@ def register(reg):
     A("XorProvider", _XorProvider__key="bytes")
     A("AesProvider", _AesProvider__key="bytes")
     A("BaseField", _key="str", _name="opt:str", _schema="opt:ref:Schema")
-    A("Field", required="bool", _default="any", validator="any", sensitive="bool", description="any", help="opt:str", env=ENV)
+    A("Field", required="bool", _default="any", validator="opt:ref:function", sensitive="bool", description="any", help="opt:str", env=ENV)
     A("ConfigTypeField", config_type="cls:ConfigType")
     A("Schema", _dynamic="bool", _fields="rep:dict:1", _env_prefix=ENV, _validators="rep:list:2")
     A("Config", _schema="ref:Schema", _parent="opt:ref:Config", _container="opt:ref:ContainerValueMixin", _data="rep:dict:3",
@@ -31,8 +31,8 @@ def register(reg):
     A("FilenameField", exists="none|bool|str", startdir="opt:str")
     A("ChallengeField", algorithm="any")
     A("SecureField", method="any")
-    A("VirtualField", getter="any", setter="any")
-    A("InstanceMethodField", method="any")
+    A("VirtualField", getter="ref:function", setter="opt:ref:function")
+    A("InstanceMethodField", method="ref:function")
     A("LogLevelField", levels="ref:list")
     A("ApplicationModeField", modes="ref:list", create_helpers="bool")
     A("JsonConfigFormat", pretty="any")
